@@ -6,6 +6,7 @@ CONSTANTS
   D = 1
   MaxEvents = 4
   MaxFails = 0
+  Extra = "none"
   Backoff = FALSE
   Closed = FALSE
   ObserveCb = TRUE
